@@ -1,7 +1,7 @@
 (* C09 — the guarded entry (roots.lookup after fix 6adf36d): statements without the
    "no '/' in the host" side condition. *)
 From FoxBase Require Import Bytes.
-From FoxRoute Require Import Node Lookup HostPort Spec Guard LazyProofs LazyProofs2 HostEquiv HostEquiv2 Props_C09_host.
+From FoxRoute Require Import Node Lookup HostPort Spec Guard Tree Corr StaticEquiv StaticEquiv2 HostEquiv HostEquiv2 Props_C09_host.
 Open Scope char_scope.
 
 (* a Host containing '/' is treated exactly like an absent Host, by the model of the code
